@@ -92,7 +92,15 @@ func desc(v ssa.Value, depth int, seen map[ssa.Value]bool) string {
 		}
 		return x.Op.String() + desc(x.X, depth-1, seen)
 	case *ssa.BinOp:
-		return "(" + desc(x.X, depth-1, seen) + " " + x.Op.String() + " " + desc(x.Y, depth-1, seen) + ")"
+		l, r := desc(x.X, depth-1, seen), desc(x.Y, depth-1, seen)
+		switch x.Op {
+		case token.ADD, token.MUL, token.AND, token.OR, token.XOR:
+			// commutative: canonical operand order (strings excluded: + is concatenation)
+			if b, ok := x.Type().Underlying().(*types.Basic); ok && b.Info()&types.IsString == 0 && r < l {
+				l, r = r, l
+			}
+		}
+		return "(" + l + " " + x.Op.String() + " " + r + ")"
 	case *ssa.Phi:
 		if seen[v] {
 			return "phi↺"
